@@ -317,8 +317,14 @@ def main(argv=None):
         # the engine could not model some path: try the concrete oracle before giving up
         if hasattr(mod, "fallback_oracle") or hasattr(mod, "replay"):
             try:
-                fo = mod.fallback_oracle() if hasattr(mod, "fallback_oracle") else \
-                    mod.replay("<engine could not model the code>", {})
+                if hasattr(mod, "fallback_oracle"):
+                    fo = mod.fallback_oracle()
+                elif os.path.exists(os.path.join(VERIF, "replay", prop + ".py")):
+                    # every concrete oracle of the property (real torch): the engine gave no verdict
+                    from pydv import kit as _kit
+                    fo = _kit.concrete_replay(prop, [], timeout=2400, tail=6000)
+                else:
+                    fo = mod.replay("<engine could not model the code>", {})
             except Exception as ex:
                 fo = None
             if fo and fo.get("confirmed"):
